@@ -1,0 +1,256 @@
+//go:build verif
+// +build verif
+
+// Hooks for the /verif framework, property C01 (checker soundness). Not part
+// of the regular build (build tag `verif`).
+
+package check
+
+import (
+	"errors"
+	"fmt"
+	"math/big"
+	"sort"
+
+	"github.com/google/wuffs/lang/builtin"
+
+	a "github.com/google/wuffs/lang/ast"
+	t "github.com/google/wuffs/lang/token"
+)
+
+// VerifBase holds a Checker on which only the package-independent first part
+// of Check has run (built-in funcs, consts, statuses), so that many small
+// packages sharing one token map can be checked without re-parsing the
+// built-in declarations every time. Not safe for concurrent use.
+type VerifBase struct {
+	tm   *t.Map
+	base *Checker
+}
+
+// VerifNewBase does everything that Check does before its phases loop.
+func VerifNewBase(tm *t.Map) (*VerifBase, error) {
+	c := &Checker{
+		tm: tm,
+
+		topLevelNames: map[t.ID]a.Kind{
+			t.IDBase: a.KUse,
+		},
+
+		consts:   map[t.QID]*a.Const{},
+		statuses: map[t.QID]*a.Status{},
+		structs:  map[t.QID]*a.Struct{},
+
+		funcs:     map[t.QQID]*a.Func{},
+		localVars: map[t.QQID]typeMap{},
+
+		builtInRosliceFuncs:   map[t.QQID]*a.Func{},
+		builtInRosliceU8Funcs: map[t.QQID]*a.Func{},
+		builtInRotableFuncs:   map[t.QQID]*a.Func{},
+		builtInSliceFuncs:     map[t.QQID]*a.Func{},
+		builtInSliceU8Funcs:   map[t.QQID]*a.Func{},
+		builtInTableFuncs:     map[t.QQID]*a.Func{},
+
+		builtInInterfaces:     map[t.QID][]t.QQID{},
+		builtInInterfaceFuncs: map[t.QQID]*a.Func{},
+		unseenInterfaceImpls:  map[t.QQID]*a.Func{},
+
+		chooseAlternatives: map[t.QID][]t.ID{},
+		noRecursiveMarks:   map[t.QID]uint8{},
+	}
+
+	for _, funcs := range builtin.Funcs {
+		if err := c.parseBuiltInFuncs(nil, nil, funcs); err != nil {
+			return nil, err
+		}
+	}
+	if err := c.parseBuiltInFuncs(c.builtInSliceFuncs, c.builtInRosliceFuncs, builtin.SliceFuncs); err != nil {
+		return nil, err
+	}
+	if err := c.parseBuiltInFuncs(c.builtInSliceU8Funcs, c.builtInRosliceU8Funcs, builtin.SliceU8Funcs); err != nil {
+		return nil, err
+	}
+	if err := c.parseBuiltInFuncs(c.builtInTableFuncs, c.builtInRotableFuncs, builtin.TableFuncs); err != nil {
+		return nil, err
+	}
+	if err := c.parseBuiltInFuncs(c.builtInInterfaceFuncs, nil, builtin.InterfaceFuncs); err != nil {
+		return nil, err
+	}
+
+	for qqid := range c.builtInInterfaceFuncs {
+		qid := t.QID{qqid[0], qqid[1]}
+		c.builtInInterfaces[qid] = append(c.builtInInterfaces[qid], qqid)
+	}
+	for _, qqids := range c.builtInInterfaces {
+		sort.Slice(qqids, func(i int, j int) bool {
+			return qqids[i].LessThan(qqids[j])
+		})
+	}
+
+	for _, z := range builtin.Consts {
+		name, err := tm.Insert(z.Name)
+		if err != nil {
+			return nil, err
+		}
+		xType := (*a.TypeExpr)(nil)
+		switch z.Type {
+		case t.IDU8:
+			xType = typeExprU8
+		case t.IDU16:
+			xType = typeExprU16
+		case t.IDU32:
+			xType = typeExprU32
+		case t.IDU64:
+			xType = typeExprU64
+		default:
+			return nil, fmt.Errorf("check: unsupported built-in const type %q", z.Type.Str(tm))
+		}
+		value, err := tm.Insert(z.Value)
+		if err != nil {
+			return nil, err
+		}
+		cNode := a.NewConst(0, "", 0, name, xType, a.NewExpr(0, 0, value, nil, nil, nil, nil))
+		if err := c.checkConst(cNode.AsNode()); err != nil {
+			return nil, err
+		}
+		c.consts[t.QID{t.IDBase, name}] = cNode
+	}
+
+	for _, z := range builtin.Statuses {
+		id, err := tm.Insert(z)
+		if err != nil {
+			return nil, err
+		}
+		c.statuses[t.QID{t.IDBase, id}] = nil
+	}
+	return &VerifBase{tm: tm, base: c}, nil
+}
+
+// Check is Check(tm, files, resolveUse) on a copy of the prepared state: the
+// per-package maps are copied, the (read-only) built-in maps are shared, the
+// reason map is rebuilt (it depends on the strings the token map holds now).
+func (b *VerifBase) Check(files []*a.File, resolveUse func(usePath string) ([]byte, error)) (*Checker, error) {
+	for _, f := range files {
+		if f == nil {
+			return nil, errors.New("check: Check given a nil *ast.File")
+		}
+	}
+	if len(files) > 1 {
+		m := map[string]bool{}
+		for _, f := range files {
+			if m[f.Filename()] {
+				return nil, fmt.Errorf("check: Check given duplicate filename %q", f.Filename())
+			}
+			m[f.Filename()] = true
+		}
+	}
+
+	tm := b.tm
+	rMap := reasonMap{}
+	for _, r := range reasons {
+		if id := tm.ByName(r.s); id != 0 {
+			rMap[id] = r.r
+		}
+	}
+	o := b.base
+	c := &Checker{
+		tm:         tm,
+		resolveUse: resolveUse,
+		reasonMap:  rMap,
+
+		topLevelNames: map[t.ID]a.Kind{},
+
+		consts:   map[t.QID]*a.Const{},
+		statuses: map[t.QID]*a.Status{},
+		structs:  map[t.QID]*a.Struct{},
+
+		funcs:     map[t.QQID]*a.Func{},
+		localVars: map[t.QQID]typeMap{},
+
+		builtInRosliceFuncs:   o.builtInRosliceFuncs,
+		builtInRosliceU8Funcs: o.builtInRosliceU8Funcs,
+		builtInRotableFuncs:   o.builtInRotableFuncs,
+		builtInSliceFuncs:     o.builtInSliceFuncs,
+		builtInSliceU8Funcs:   o.builtInSliceU8Funcs,
+		builtInTableFuncs:     o.builtInTableFuncs,
+
+		builtInInterfaces:     o.builtInInterfaces,
+		builtInInterfaceFuncs: o.builtInInterfaceFuncs,
+		unseenInterfaceImpls:  map[t.QQID]*a.Func{},
+
+		chooseAlternatives: map[t.QID][]t.ID{},
+		noRecursiveMarks:   map[t.QID]uint8{},
+	}
+	for k, v := range o.topLevelNames {
+		c.topLevelNames[k] = v
+	}
+	for k, v := range o.consts {
+		c.consts[k] = v
+	}
+	for k, v := range o.statuses {
+		c.statuses[k] = v
+	}
+	for k, v := range o.structs {
+		c.structs[k] = v
+	}
+	for k, v := range o.funcs {
+		c.funcs[k] = v
+	}
+	for k, v := range o.localVars {
+		c.localVars[k] = v
+	}
+	for k, v := range o.unseenInterfaceImpls {
+		c.unseenInterfaceImpls[k] = v
+	}
+	c.unsortedStructs = append([]*a.Struct(nil), o.unsortedStructs...)
+
+	for _, phase := range phases {
+		if phase.kind == a.KInvalid {
+			if err := phase.check(c, nil); err != nil {
+				return nil, err
+			}
+			continue
+		}
+
+		for _, f := range files {
+			for _, n := range f.TopLevelDecls() {
+				if n.Kind() != phase.kind {
+					continue
+				}
+				if err := phase.check(c, n); err != nil {
+					return nil, err
+				}
+			}
+			setPlaceholderMBoundsMType(f.AsNode())
+		}
+	}
+	return c, nil
+}
+
+func verifRows(tab []bounds) (rows [][3]*big.Int) {
+	for id, b := range tab {
+		if b[0] == nil || b[1] == nil {
+			continue
+		}
+		rows = append(rows, [3]*big.Int{
+			big.NewInt(int64(id)),
+			new(big.Int).Set(b[0]),
+			new(big.Int).Set(b[1]),
+		})
+	}
+	return rows
+}
+
+// VerifNumTypeBounds returns the non-empty rows of numTypeBounds as
+// (token ID, min, max), in ID order.
+func VerifNumTypeBounds() [][3]*big.Int { return verifRows(numTypeBounds[:]) }
+
+// VerifNumShiftBounds returns the non-empty rows of numShiftBounds.
+func VerifNumShiftBounds() [][3]*big.Int { return verifRows(numShiftBounds[:]) }
+
+// VerifMinMaxIdeal returns copies of minIdeal and maxIdeal.
+func VerifMinMaxIdeal() (lo, hi *big.Int) {
+	return new(big.Int).Set(minIdeal), new(big.Int).Set(maxIdeal)
+}
+
+// VerifBitMask returns a copy of bitMask(nBits).
+func VerifBitMask(nBits int) *big.Int { return new(big.Int).Set(bitMask(nBits)) }
